@@ -783,4 +783,9 @@ func TestVerif_C11(t *testing.T) {
 		}
 	})
 	vh.Check(t, "model", 1200, 2500, func(rt *rapid.T) { c11Case(rt, rec) })
+	// ordinal / key-range reads on trees of up to three levels (c11_ordinal_test.go)
+	recO := vh.NewRecorder("C11", "ordinal", "exploration", c11OrdinalRule,
+		"ordinal ranges satisfy lo <= hi <= Count() (FetchOrdinalRange / IterOrdinalRange reject anything else)")
+	defer recO.Write(t)
+	vh.Check(t, "ordinal", 120, 150, func(rt *rapid.T) { c11OrdinalCase(rt, recO) })
 }
